@@ -103,7 +103,10 @@ def evaluate(e, env):
         l, r = evaluate(e.left, env), evaluate(e.comparators[0], env)
         op = e.ops[0]
         table = {ast.Eq: lambda: l == r, ast.NotEq: lambda: l != r, ast.Lt: lambda: l < r, ast.LtE: lambda: l <= r,
-                 ast.Gt: lambda: l > r, ast.GtE: lambda: l >= r, ast.In: lambda: l in r, ast.NotIn: lambda: l not in r}
+                 ast.Gt: lambda: l > r, ast.GtE: lambda: l >= r, ast.In: lambda: l in r, ast.NotIn: lambda: l not in r,
+                 ast.Is: lambda: l is r, ast.IsNot: lambda: l is not r}
+        if isinstance(op, (ast.Is, ast.IsNot)) and not (l is None or r is None):
+            raise NoEval("identity test of non-None values")
         if type(op) in table:
             return table[type(op)]()
     raise NoEval(src(e)[:40])
@@ -210,6 +213,14 @@ def call_function(funcdef, args, fuel=20000, stubs=None, funcs=None, _depth=0, m
     """Abstractly interpret a small pure function (assignments, if/for/while, return; pure builtins) on concrete arguments.
     Nothing of the repository is imported or executed; anything outside the interpreted subset raises NoEval."""
     params = [a.arg for a in funcdef.args.args]
+    args = list(args)
+    if len(args) < len(params):
+        # trailing parameters the case does not supply take their (constant) defaults
+        defaults = dict(zip(params[len(params) - len(funcdef.args.defaults):], funcdef.args.defaults))
+        for pn in params[len(args):]:
+            if pn not in defaults:
+                raise NoEval("arity")
+            args.append(const_expr(defaults[pn], {}))
     if len(params) != len(args):
         raise NoEval("arity")
     env = dict(zip(params, args))
@@ -236,3 +247,36 @@ def module_helpers(prog):
         if "." not in q:
             out[q] = None if q in out else f
     return {k: v for k, v in out.items() if v is not None}
+
+
+
+def const_expr(e, env):
+    """Value of a constant expression (numbers, strings, tuples, arithmetic over names of `env`) - read off the syntax tree, nothing is
+    compiled or executed.  Raises NoEval for anything else (calls, attribute access on objects, comprehensions ...)."""
+    if isinstance(e, ast.Constant) and isinstance(e.value, (int, float, str, bytes, bool, type(None))):
+        return e.value
+    if isinstance(e, ast.Name):
+        if e.id in env:
+            return env[e.id]
+        raise NoEval(e.id)
+    if isinstance(e, (ast.Tuple, ast.List)):
+        vals = [const_expr(x, env) for x in e.elts]
+        return tuple(vals) if isinstance(e, ast.Tuple) else vals
+    if isinstance(e, ast.UnaryOp) and isinstance(e.op, (ast.USub, ast.UAdd, ast.Invert)):
+        v = const_expr(e.operand, env)
+        return -v if isinstance(e.op, ast.USub) else (+v if isinstance(e.op, ast.UAdd) else ~v)
+    if isinstance(e, ast.BinOp):
+        l, r = const_expr(e.left, env), const_expr(e.right, env)
+        ops = {ast.Add: lambda a, b: a + b, ast.Sub: lambda a, b: a - b, ast.Mult: lambda a, b: a * b, ast.FloorDiv: lambda a, b: a // b,
+               ast.Div: lambda a, b: a / b, ast.Mod: lambda a, b: a % b, ast.LShift: lambda a, b: a << b, ast.RShift: lambda a, b: a >> b,
+               ast.BitOr: lambda a, b: a | b, ast.BitAnd: lambda a, b: a & b, ast.BitXor: lambda a, b: a ^ b}
+        if type(e.op) is ast.Pow and isinstance(l, int) and isinstance(r, int) and 0 <= r <= 64:
+            return l ** r
+        f = ops.get(type(e.op))
+        if f is None or isinstance(l, (str, bytes)) and not isinstance(e.op, (ast.Add, ast.Mult, ast.Mod)):
+            raise NoEval(src(e)[:40])
+        try:
+            return f(l, r)
+        except Exception:
+            raise NoEval(src(e)[:40])
+    raise NoEval(src(e)[:40])
